@@ -1,53 +1,57 @@
-//! C03 obligations: concat returns its present arguments joined in order;
-//! absent only if all are absent.
+//! C03 obligations: the built-in concat (`concat_impl`, `concat_bytes`,
+//! `concat_array`) returns its PRESENT arguments joined in order; the result is
+//! absent only if all arguments are absent.  Direct calls on the real function
+//! with an argument iterator of constant length and symbolic presence / contents.
 use super::super::*;
+use crate::lhs_types::verif_kani::common::array_owned;
 use crate::lhs_types::Bytes;
 
-static A: [u8; 2] = [1, 2];
-static B: [u8; 1] = [3];
-static C: [u8; 2] = [4, 5];
-
-/// Three Bytes arguments, each present or absent (typed absence).
+/// Three Bytes arguments of lengths 2, 1, 2 (symbolic bytes), each present or a
+/// typed absence.
 #[kani::proof]
 #[kani::unwind(8)]
 fn concat_bytes__present_args_in_order() {
+    let a: [u8; 2] = kani::any();
+    let b: [u8; 1] = kani::any();
+    let c: [u8; 2] = kani::any();
     let pa: bool = kani::any();
     let pb: bool = kani::any();
     let pc: bool = kani::any();
-    let mk = |p: bool, s: &'static [u8]| -> Result<LhsValue<'static>, Type> {
-        if p { Ok(LhsValue::Bytes(Bytes::Borrowed(s))) } else { Err(Type::Bytes) }
-    };
-    let args = [mk(pa, &A), mk(pb, &B), mk(pc, &C)];
+    let args: [Result<LhsValue<'_>, Type>; 3] = [
+        if pa { Ok(LhsValue::Bytes(Bytes::Borrowed(&a[..]))) } else { Err(Type::Bytes) },
+        if pb { Ok(LhsValue::Bytes(Bytes::Borrowed(&b[..]))) } else { Err(Type::Bytes) },
+        if pc { Ok(LhsValue::Bytes(Bytes::Borrowed(&c[..]))) } else { Err(Type::Bytes) },
+    ];
     let mut it = args.into_iter();
     let got = concat_impl(&mut it);
     let mut want = [0u8; 5];
     let mut n = 0;
     if pa {
-        want[n] = 1;
-        want[n + 1] = 2;
+        want[n] = a[0];
+        want[n + 1] = a[1];
         n += 2;
     }
     if pb {
-        want[n] = 3;
+        want[n] = b[0];
         n += 1;
     }
     if pc {
-        want[n] = 4;
-        want[n + 1] = 5;
+        want[n] = c[0];
+        want[n + 1] = c[1];
         n += 2;
     }
     match got {
-        Some(LhsValue::Bytes(b)) => {
-            assert!(pa || pb || pc, "absent only if all arguments are absent");
-            assert!(b.len() == n, "the present arguments joined");
+        Some(LhsValue::Bytes(r)) => {
+            assert!(pa || pb || pc, "absent if all arguments are absent");
+            assert!(r.len() == n, "exactly the present arguments joined");
             let mut i = 0;
             while i < 5 {
                 if i < n {
-                    assert!(b[i] == want[i], "in order");
+                    assert!(r[i] == want[i], "present arguments in order");
                 }
                 i += 1;
             }
-            std::mem::forget(b);
+            std::mem::forget(r);
         }
         None => {
             assert!(!pa && !pb && !pc, "present arguments give a present result");
@@ -57,9 +61,37 @@ fn concat_bytes__present_args_in_order() {
             assert!(false, "bytes arguments give a bytes result");
         }
     }
+    kani::cover!(!pa && pb && !pc, "only the middle argument is present");
+    kani::cover!(pa && !pb && pc, "an absent argument between present ones");
+    kani::cover!(!pa && !pb && !pc, "all absent");
 }
 
-/// Array(Int) arguments: {x}, absent, {y, z}.
+fn one(x: i64) -> Array<'static> {
+    let mut v = Vec::with_capacity(1);
+    v.push(LhsValue::Int(x));
+    array_owned(Type::Int, v)
+}
+
+fn two(y: i64, z: i64) -> Array<'static> {
+    let mut v = Vec::with_capacity(2);
+    v.push(LhsValue::Int(y));
+    v.push(LhsValue::Int(z));
+    array_owned(Type::Int, v)
+}
+
+fn expect_elem(arr: &Array<'_>, i: usize, want: i64) {
+    match arr.get(i) {
+        Some(LhsValue::Int(v)) => {
+            assert!(*v == want, "elements of the present arguments, in order");
+        }
+        _ => {
+            assert!(false, "elements of the present arguments, in order");
+        }
+    }
+}
+
+/// Array(Int) arguments: {x} (present or absent), ABSENT, {y, z}: the absent
+/// middle argument does not stop the concatenation.
 #[kani::proof]
 #[kani::unwind(8)]
 fn concat_arrays__present_args_in_order() {
@@ -67,32 +99,49 @@ fn concat_arrays__present_args_in_order() {
     let y: i64 = kani::any();
     let z: i64 = kani::any();
     let first_present: bool = kani::any();
-    let a0 = Array::try_from_vec(Type::Int, vec![LhsValue::Int(x)]).unwrap();
-    let a2 = Array::try_from_vec(Type::Int, vec![LhsValue::Int(y), LhsValue::Int(z)]).unwrap();
     let ty = Type::Array(Type::Int.into());
     let args: [Result<LhsValue<'static>, Type>; 3] = [
-        if first_present { Ok(LhsValue::Array(a0)) } else { Err(ty) },
+        if first_present { Ok(LhsValue::Array(one(x))) } else { Err(ty) },
         Err(ty),
-        Ok(LhsValue::Array(a2)),
+        Ok(LhsValue::Array(two(y, z))),
     ];
     let mut it = args.into_iter();
     match concat_impl(&mut it) {
         Some(LhsValue::Array(arr)) => {
-            assert!(arr.value_type() == Type::Int);
+            assert!(arr.value_type() == Type::Int, "the element type is kept");
             if first_present {
-                assert!(arr.len() == 3);
-                assert!(matches!(arr.get(0), Some(LhsValue::Int(v)) if *v == x));
-                assert!(matches!(arr.get(1), Some(LhsValue::Int(v)) if *v == y));
-                assert!(matches!(arr.get(2), Some(LhsValue::Int(v)) if *v == z));
+                assert!(arr.len() == 3, "all present arguments contribute");
+                expect_elem(&arr, 0, x);
+                expect_elem(&arr, 1, y);
+                expect_elem(&arr, 2, z);
             } else {
-                assert!(arr.len() == 2);
-                assert!(matches!(arr.get(0), Some(LhsValue::Int(v)) if *v == y));
-                assert!(matches!(arr.get(1), Some(LhsValue::Int(v)) if *v == z));
+                assert!(arr.len() == 2, "all present arguments contribute");
+                expect_elem(&arr, 0, y);
+                expect_elem(&arr, 1, z);
             }
             std::mem::forget(arr);
         }
-        _ => {
+        Some(v) => {
+            std::mem::forget(v);
             assert!(false, "array arguments give an array result");
         }
+        None => {
+            assert!(false, "a present argument gives a present result");
+        }
     }
+    kani::cover!(first_present);
+    kani::cover!(!first_present);
+}
+
+/// All array arguments absent: the result is absent.
+#[kani::proof]
+#[kani::unwind(5)]
+fn concat_arrays__all_absent_is_absent() {
+    let ty = Type::Array(Type::Int.into());
+    let args: [Result<LhsValue<'static>, Type>; 2] = [Err(ty), Err(ty)];
+    let mut it = args.into_iter();
+    let got = concat_impl(&mut it);
+    assert!(got.is_none(), "absent if all arguments are absent");
+    kani::cover!(true);
+    std::mem::forget(got);
 }
